@@ -19,6 +19,7 @@ import (
 	"os"
 	"runtime/debug"
 	"strings"
+	"sync"
 
 	cbor "github.com/fxamacker/cbor/v2"
 	"github.com/gmrtd/gmrtd/activeauth"
@@ -785,11 +786,36 @@ func verifierHazard(blob []byte) string {
 	return ""
 }
 
+var (
+	sharedVerifierOnce   sync.Once
+	sharedVerifier       *verifier.Verifier
+	sharedMobileVerifier *mobile.Verifier
+)
+
 func runVerifier(t TB, mode int, s *docSpec, raw []byte) int {
 	var blob []byte
-	switch mode % 3 {
+	switch mode % 5 {
 	case 0:
 		blob = raw
+	case 3, 4:
+		// a well-formed outer envelope around a VALID document blob whose evidence member is missing,
+		// null, empty or garbage (an exporter never writes that; an attacker or another producer may)
+		db, err := rawDoc(s).ToCbor()
+		if err != nil {
+			return 0
+		}
+		m := map[string]any{"document": db}
+		switch len(raw) % 5 {
+		case 1:
+			m["chipAuthEvidence"] = nil
+		case 2:
+			m["chipAuthEvidence"] = []byte{}
+		case 3:
+			m["chipAuthEvidence"] = raw
+		case 4:
+			m["chipAuthEvidence"] = envelope(magicEv, 1, raw)
+		}
+		blob = envelope(magicDocEx, 1, mustCbor(m))
 	case 1:
 		ex := document.DocumentEx{Document: *rawDoc(s), Session: specSession(s)}
 		var err error
@@ -818,6 +844,13 @@ func runVerifier(t TB, mode int, s *docSpec, raw []byte) int {
 			docEx.ToCbor()
 		})
 	}
+	// long-lived verifier objects see the whole history of blobs of this process: an input must not
+	// leave the object in a state in which a later call misbehaves (blocks, panics)
+	guardPK(t, "verifier.Verify(long-lived)", len(blob), rep("entry", "one verifier.Verifier used for every blob of the run", "input", blob), func() {
+		sharedVerifierOnce.Do(func() { sharedVerifier, sharedMobileVerifier = verifier.NewVerifier(trustStore), mobile.NewVerifier() })
+		sharedVerifier.Verify(blob)
+		sharedMobileVerifier.Verify(blob)
+	})
 	guardPK(t, "mobile.Verifier.Verify", len(blob), rep("entry", "mobile.NewVerifier().Verify", "input", blob), func() {
 		d, e := mobile.NewVerifier().Verify(blob)
 		if e == nil && d != nil {
